@@ -1358,6 +1358,176 @@ Section TensordotDen.
   Qed.
 End TensordotDen.
 
+(* ====================================================================== _dot_coo_coo *)
+Section CooCoo.
+  Variable V : Type.
+  Variable vzero : V.
+  Variable vadd vmul : V -> V -> V.
+  Hypothesis SR : comm_semiring vzero vadd vmul.
+
+  Definition tag_row (i : Z) (r : list (Z * V)) : list (Z * Z * V) := map (fun kv => (i, fst kv, snd kv)) r.
+  Definition coo_out (a b : csr V) (is : list Z) : list (Z * Z * V) :=
+    concat (map (fun i => tag_row i (abs_row V vzero vadd vmul a b i)) is).
+
+  Lemma coo_row_step_spec n_col a b sm out i :
+    0 <= n_col -> keys_ok V vmul n_col a b -> all_zero V vzero n_col sm ->
+    exists sm2,
+      coo_row_step V vzero vadd vmul n_col a b (sm, out) i
+      = (sm2, out ++ tag_row i (abs_row V vzero vadd vmul a b i))
+      /\ all_zero V vzero n_col sm2.
+  Proof.
+    intros Hn Hk [Hs Hz]. unfold coo_row_step.
+    set (ps := prod_stream V vmul a b i).
+    destruct (acc_fold V vzero vadd n_col ps (Hk i) _ sm (-2) 0 [] (LL_init n_col Hn) Hs)
+      as [nx1 [sm1 [h1 [len1 [E [HLL [Hs1 Hv]]]]]]].
+    rewrite E. destruct HLL as [Hnx Hlen Hc Hnd Hr Hm].
+    fold (touched (map fst ps)) in *. set (l := touched (map fst ps)) in *.
+    destruct (emit_spec V vzero n_col l nx1 sm1 h1 Hc Hnd Hr Hnx Hs1) as [nx2 [sm2 [h2 [E2 [Hs2 Hv2]]]]].
+    rewrite Hlen, Nat2Z.id, E2.
+    assert (Hrow : map (fun k => (k, znth sm1 k vzero)) l = abs_row V vzero vadd vmul a b i).
+    { unfold abs_row. fold ps. fold l. apply map_ext_in. intros k Hin.
+      rewrite Forall_forall in Hr. specialize (Hr _ Hin). rewrite (Hv k Hr), (Hz k Hr). reflexivity. }
+    exists sm2. split.
+    - rewrite Hrow. reflexivity.
+    - split; [exact Hs2|]. intros k Hk0. rewrite (Hv2 k Hk0).
+      destruct (mem_z k l) eqn:Em; [reflexivity|].
+      rewrite (Hv k Hk0), (Hz k Hk0). apply ksum_notin. intros Hin.
+      apply (proj2 (touched_In _ _)) in Hin. fold l in Hin. apply mem_z_In in Hin. congruence.
+  Qed.
+
+  Lemma coo_loops_fold n_col a b : 0 <= n_col -> keys_ok V vmul n_col a b ->
+    forall (is : list Z) sm out, all_zero V vzero n_col sm ->
+    exists sm',
+      fold_left (coo_row_step V vzero vadd vmul n_col a b) is (sm, out) = (sm', out ++ coo_out a b is)
+      /\ all_zero V vzero n_col sm'.
+  Proof.
+    intros Hn Hk. induction is as [|i is IH]; intros sm out Hz.
+    - exists sm. unfold coo_out. simpl. rewrite app_nil_r. auto.
+    - destruct (coo_row_step_spec n_col a b sm out i Hn Hk Hz) as [sm2 [E Hz2]].
+      cbn [fold_left]. rewrite E.
+      destruct (IH sm2 (out ++ tag_row i (abs_row V vzero vadd vmul a b i)) Hz2) as [sm' [E' Hz']].
+      exists sm'. rewrite E'. unfold coo_out. simpl. rewrite <- app_assoc. auto.
+  Qed.
+
+  Lemma coo_out_length a b is :
+    length (coo_out a b is) = length (concat (map (fun i => touched (map fst (prod_stream V vmul a b i))) is)).
+  Proof.
+    unfold coo_out. apply length_concat_map_ext. intros i. unfold tag_row, abs_row. rewrite !map_length. reflexivity.
+  Qed.
+
+  Lemma dot_coo_coo_ok n_row n_in n_col (a b : csr V) :
+    csr_wfb n_row n_in a = true -> csr_wfb n_in n_col b = true ->
+    dot_coo_coo V vzero vadd vmul n_row n_col a b
+    = let out := coo_out a b (zrange n_row) in
+      KOk (map (fun t => fst (fst t)) out, map (fun t => snd (fst t)) out, map snd out).
+  Proof.
+    intros Ha Hb. unfold dot_coo_coo.
+    destruct (csr_wfb_facts V _ _ _ Ha) as [Ha1 _].
+    destruct (csr_wfb_facts V _ _ _ Hb) as [Hb1 [_ [Hn [_ [Hb5 _]]]]].
+    pose proof (keys_ok_wf V vmul n_col a b Hb5) as Hk.
+    destruct (coo_loops_fold n_col a b Hn Hk (zrange n_row) _ [] (all_zero_init V vzero n_col Hn)) as [sm' [E _]].
+    rewrite E. simpl app.
+    rewrite count_spec; auto.
+    - rewrite coo_out_length.
+      rewrite (map_ext (fun i => touched (map fst (prod_stream V vmul a b i)))
+                       (fun i => touched (row_keys (m_indices a) (m_indices b) (m_indptr a) (m_indptr b) i)))
+        by (intros i; rewrite prod_stream_keys by assumption; reflexivity).
+      rewrite Z.ltb_irrefl. reflexivity.
+    - intros i. rewrite <- (prod_stream_keys V vmul a b i Ha1 Hb1).
+      specialize (Hk i). rewrite Forall_forall in *. intros k Hin. apply in_map_iff in Hin.
+      destruct Hin as [kp [<- Hin]]. apply Hk. exact Hin.
+  Qed.
+
+  Lemma combine3 (out : list (Z * Z * V)) :
+    combine (combine (map (fun t => fst (fst t)) out) (map (fun t => snd (fst t)) out)) (map snd out) = out.
+  Proof. induction out as [|[[r c] v] out IH]; simpl; congruence. Qed.
+
+  Lemma cell_lookup_app (l1 l2 : list (Z * Z * V)) i k :
+    cell_lookup V (l1 ++ l2) i k = match cell_lookup V l2 i k with Some w => Some w | None => cell_lookup V l1 i k end.
+  Proof.
+    induction l1 as [|[[r c] v] l1 IH]; simpl; [destruct (cell_lookup V l2 i k); reflexivity|].
+    rewrite IH. destruct (cell_lookup V l2 i k); reflexivity.
+  Qed.
+
+  Lemma cell_lookup_tag_row i' r i k :
+    cell_lookup V (tag_row i' r) i k = if i' =? i then row_lookup r k else None.
+  Proof.
+    induction r as [|[c v] r IH]; simpl; [destruct (i' =? i); reflexivity|].
+    rewrite IH. destruct (Z.eqb_spec i' i); simpl.
+    - destruct (row_lookup r k); reflexivity.
+    - reflexivity.
+  Qed.
+
+  Lemma cell_lookup_coo_out a b (is : list Z) i k : NoDup is ->
+    cell_lookup V (coo_out a b is) i k
+    = if mem_z i is then row_lookup (abs_row V vzero vadd vmul a b i) k else None.
+  Proof.
+    unfold coo_out. induction is as [|i' is IH]; simpl; intros Hnd; [reflexivity|].
+    apply NoDup_cons_iff in Hnd. destruct Hnd as [Hni Hnd].
+    rewrite cell_lookup_app, (IH Hnd), cell_lookup_tag_row. unfold mem_z in *. simpl.
+    destruct (Z.eqb_spec i i') as [->|Hne]; simpl.
+    - destruct (existsb (Z.eqb i') is) eqn:Em.
+      + exfalso. apply Hni. apply existsb_exists in Em. destruct Em as [y [Hy Ey]]. apply Z.eqb_eq in Ey. subst. exact Hy.
+      + rewrite Z.eqb_refl. reflexivity.
+    - destruct (existsb (Z.eqb i) is).
+      + destruct (row_lookup (abs_row V vzero vadd vmul a b i) k); [reflexivity|].
+        destruct (Z.eqb_spec i' i); [congruence|reflexivity].
+      + destruct (Z.eqb_spec i' i); [congruence|reflexivity].
+  Qed.
+
+  Lemma abs_row_get a b i k :
+    match row_lookup (abs_row V vzero vadd vmul a b i) k with Some v => v | None => vzero end
+    = ssum V vzero vadd k (prod_stream V vmul a b i).
+  Proof.
+    unfold abs_row. rewrite row_lookup_map_key by apply touched_NoDup.
+    destruct (mem_z k (touched (map fst (prod_stream V vmul a b i)))) eqn:E.
+    - rewrite (ksum_ssum V vzero vadd vmul SR). apply (sr_add_0_l _ _ _ SR).
+    - symmetry. apply ssum_notin. intros Hin. apply (proj2 (touched_In _ _)) in Hin. apply mem_z_In in Hin. congruence.
+  Qed.
+
+  (* the promise has_duplicates=False that _dot makes to the COO constructor *)
+  Lemma coo_out_coords_NoDup a b (is : list Z) : NoDup is ->
+    NoDup (map fst (coo_out a b is)).
+  Proof.
+    unfold coo_out. induction is as [|i is IH]; simpl; intros Hnd; [constructor|].
+    apply NoDup_cons_iff in Hnd. destruct Hnd as [Hni Hnd]. rewrite map_app.
+    apply NoDup_app_intro; [|apply IH; exact Hnd|].
+    - unfold tag_row. rewrite map_map. simpl.
+      rewrite <- (map_map fst (fun k => (i, k))).
+      apply FinFun.Injective_map_NoDup; [intros x y H; inversion H; reflexivity|].
+      rewrite abs_row_keys. apply touched_NoDup.
+    - intros [r c] Hin Hin2. unfold tag_row in Hin. rewrite map_map in Hin. simpl in Hin.
+      apply in_map_iff in Hin. destruct Hin as [kv [E _]]. inversion E; subst r.
+      apply in_map_iff in Hin2. destruct Hin2 as [[[r' c'] v'] [E2 Hin2]]. simpl in E2. inversion E2; subst r' c'.
+      apply in_concat in Hin2. destruct Hin2 as [row [Hrow Hc]]. apply in_map_iff in Hrow.
+      destruct Hrow as [i' [<- Hi']]. unfold tag_row in Hc. apply in_map_iff in Hc. destruct Hc as [kv' [E3 _]].
+      inversion E3; subst. contradiction.
+  Qed.
+
+  Theorem spcoo_den_proof n_row n_in n_col (a b : csr V) :
+    csr_wfb n_row n_in a = true -> csr_wfb n_in n_col b = true ->
+    exists rows cols data,
+      dot_coo_coo V vzero vadd vmul n_row n_col a b = KOk (rows, cols, data)
+      /\ length rows = length data /\ length cols = length data
+      /\ NoDup (combine rows cols)
+      /\ forall i k, 0 <= i < n_row ->
+           coo_cells_den V vzero rows cols data i k
+           = np_matmul2 V vzero vadd vmul n_in (csr_den V vzero a) (csr_den V vzero b) i k.
+  Proof.
+    intros Ha Hb. rewrite (dot_coo_coo_ok _ _ _ _ _ Ha Hb). cbv zeta.
+    set (out := coo_out a b (zrange n_row)).
+    eexists. eexists. eexists. split; [reflexivity|]. rewrite !map_length. split; [reflexivity|]. split; [reflexivity|].
+    split.
+    - replace (combine (map (fun t => fst (fst t)) out) (map (fun t => snd (fst t)) out)) with (map fst out).
+      + apply coo_out_coords_NoDup, zrange_NoDup.
+      + clear. induction out as [|[[r c] v] out IH]; simpl; congruence.
+    - intros i k Hi. unfold coo_cells_den. rewrite combine3. unfold out.
+      rewrite cell_lookup_coo_out by apply zrange_NoDup.
+      assert (Hm : mem_z i (zrange n_row) = true) by (apply mem_z_In, zrange_In; exact Hi).
+      rewrite Hm, abs_row_get. apply (spgemm_den_row V vzero vadd vmul SR _ _ _ _ _ _ _ Ha Hb Hi).
+  Qed.
+End CooCoo.
+
 (* ====================================================================== csc @ csc by transposition *)
 (* _dot's GCXS x GCXS branch for compressed_axes == (1,):  a @ b = (b.T @ a.T).T — the CSC triple of a
    matrix is the CSR triple of its transpose, and the kernel is called as
@@ -1458,3 +1628,22 @@ Example tensordot_example :
   | Ok r => a_shape r = [2; 2] /\ map (a_at r) (all_indices [2; 2]) = [22; 28; 49; 64]
   | _ => False end.
 Proof. split; [repeat constructor; vm_compute; congruence|vm_compute; split; reflexivity]. Qed.
+
+(* csc @ csc: a = [[1,0],[2,3]] and b = [[0,4],[5,0]] as CSC triples; a @ b = [[0,4],[15,8]], returned as the
+   CSC triple (columns [15] at row 1, [4,8] at rows 0,1) *)
+Example spgemm_csc_example :
+  let ac := mkCSR [1; 2; 3] [0; 1; 1] [0; 2; 3] in
+  let bc := mkCSR [5; 4] [1; 0] [0; 1; 2] in
+  csr_wfb 2 2 ac = true /\ csr_wfb 2 2 bc = true /\
+  dot_csr_csr Z 0 Z.add Z.mul 2 2 bc ac = KOk (mkCSR [15; 4; 8] [1; 0; 1] [0; 1; 3]).
+Proof. vm_compute. repeat split; reflexivity. Qed.
+
+Example matmul_route_example :
+  matmul_route 3 2 6 1 = Some MmDot /\ matmul_route 2 3 2 2 = Some MmDotMoveAxis /\
+  matmul_route 3 3 1 2 = Some MmSqueezeA /\ matmul_route 4 3 6 1 = Some MmSqueezeB /\ matmul_route 3 3 6 2 = Some MmBatch.
+Proof. vm_compute. repeat split; reflexivity. Qed.
+
+Example spcoo_example :
+  dot_coo_coo Z 0 Z.add Z.mul 3 4 exA exB = KOk ([0; 0; 0; 1; 1], [0; 2; 1; 3; 2], [2; 1; 3; 15; 6]) /\
+  coo_cells_den Z 0 [0; 0; 0; 1; 1] [0; 2; 1; 3; 2] [2; 1; 3; 15; 6] 1 3 = 15.
+Proof. vm_compute. split; reflexivity. Qed.
